@@ -51,9 +51,12 @@ def short_fn(fn):
 
 
 def run_govc(pid, tier, outdir, extra=None):
-    timeout = 20 if tier == "quick" else 90
+    timeout = 30 if tier == "quick" else 120
     cmd = [os.path.join(ROOT, "bin", "govc"), "-repo", REPO, "-verif", ROOT, "-props", pid,
            "-out", outdir, "-timeout", str(timeout), "-j", "12"]
+    if tier != "quick":
+        # thorough: vacuity probes get 10 s instead of 2 s (an inconsistent context is found more reliably)
+        cmd += ["-probe", "10"]
     if extra:
         cmd += extra
     env = dict(os.environ)
@@ -191,7 +194,7 @@ def run_property(pid, tier, seed):
             "discharged": len(discharged),
             "obligations_generated": n_claimed,
             "obligations_behind_known_findings": len(known_hits),
-            "checker_cmd": "bin/govc -props %s -timeout %d (z3-new 5.1.0 | cvc5 1.0 | z3 4.8.12 raced per obligation)" % (pid, 20 if tier == "quick" else 90),
+            "checker_cmd": "bin/govc -props %s -timeout %d (z3-new 5.1.0 | cvc5 1.0 | z3 4.8.12 raced per obligation)" % (pid, 30 if tier == "quick" else 120),
             "trusted_base": sorted(trusted) + ["uncontracted callee (results arbitrary, reachable memory havocked): " + u for u in sorted(unconstrained)],
             "functions_under_contract": [short_fn(f["fn"]) for f in res["functions"]],
             "functions_translated": len(res["functions"]),
